@@ -78,7 +78,8 @@ ALGEBRAIC = [_X2, 2 * _X2, R - _X2, R - 2 * _X2, R - 77 * _X2, _X2 - 1, R - (_X2
 
 # identities with whole 32- / 64-bit words equal to zero in the middle or at the bottom (and something above them): a width test that
 # looks at one word or one double word takes them for short values
-SPARSE_WORDS = [(7 << 128) | 42, 1 << 200, (1 << 192) | 1, 1 << 64, 1 << 128, 5 << 64, (0xabc << 224) | (3 << 32), (1 << 160) | (1 << 31), (0xffffffff << 96) | 9, 1 << 255]
+SPARSE_WORDS = [(7 << 128) | 42, 1 << 200, (1 << 192) | 1, 1 << 64, 1 << 128, 5 << 64, (0xabc << 224) | (3 << 32), (1 << 160) | (1 << 31), (0xffffffff << 96) | 9, 1 << 255,
+                (1 << 64) - 1, ((1 << 64) - 1) << 20, (1 << 128) - 1, ((1 << 96) - 1) << 32, ((1 << 64) - 1) << 128]        # ... and long runs of one bits
 
 
 def sparse_id(rng):
